@@ -24,9 +24,8 @@ RULE = ("cases by kind: hatvee (exact), se3 (inverse / relative / so3 block; exa
         "exact Rodrigues matrix with 200-bit sinc/cosc coefficients; so3_log through exp(log R) = R and ‖log R‖ ≤ π); "
         "non-trivial = not the identity / not an all-default case; distinct by content hash")
 
-OPEN = ["triangle inequality of the rotation angle: not proved (no geodesic metric of SO(3) in Mathlib); tested by the oracle on triples only",
-        "so3_exp/so3_log are scipy calls: tied by the Rodrigues certificate (coefficients sin‖v‖/‖v‖, (1−cos‖v‖)/‖v‖² computed by the harness "
-        "as 200-bit Taylor sums in ‖v‖²), exp∘log / log∘exp proved only in polynomial form (`_partial`)",
+OPEN = ["so3_exp/so3_log are scipy calls: tied by the Rodrigues certificate (coefficients sin‖v‖/‖v‖, (1−cos‖v‖)/‖v‖² computed by the harness "
+        "as 200-bit Taylor sums in ‖v‖²); exp∘log / log∘exp are proved over ℝ for the mathematical expR/logR (angle π excluded: `_partial`)",
         "sim3_scale = det^(1/3) is irrational: the model takes the scale evo computed as an input; s³ = det is checked per case",
         "rotation angle exactly π: axis sign is not determined; log∘exp is only checked for ‖v‖ < π",
         "float rounding: numeric results are compared to 64·2⁻⁵³·magnitude, membership decisions within 1e-13 of a threshold are skipped"]
@@ -687,7 +686,7 @@ def judge_angle(ctx, case, impl, outs):
         ctx.fail(case, "angle-zero-only-for-equal", f"d(A,B) = {impl['ab']!r} although AᵀB differs from I by {float(apart):.3e}")
     if apart > Fraction(1, 10 ** 13) and impl["ab"] < float(apart) / 4:
         ctx.fail(case, "angle-zero-only-for-equal", f"d(A,B) = {impl['ab']!r} far below ‖AᵀB − I‖ = {float(apart):.3e}")
-    # triangle inequality: tested only (open clause)
+    # triangle inequality (proved over ℝ: angle_triangle)
     if impl["ac"] > impl["ab"] + impl["bc"] + 4 * atol:
         ctx.fail(case, "angle-triangle", f"d(A,C) = {impl['ac']!r} > d(A,B) + d(B,C) = {impl['ab'] + impl['bc']!r}")
     ctx.count("branch", "angle-" + ("zero" if ref == 0 else "tiny" if ref < 1e-6 else "near-pi" if ref > math.pi - 1e-6 else "generic"))
